@@ -41,8 +41,8 @@ EXPLANATION = ('CrossHair executes an arbitrary operation on one engine while an
                'query) is observed; and symbolic schedules of next() over several suspended queries; on every path the observed engine '
                'behaves as when alone and the two object graphs are disjoint; CONFIRMED = path tree exhausted')
 
-POOL = ["p(1).\np(2) :- !.\np(3).\nt(X) :- (p(X) -> true ; X = 0).\n",
-        "p(10).\nq(X) :- p(X), \\+ X = 10.\nq(99).\nt(X) :- q(X).\n"]
+POOL = ["p(1).\np(2) :- !.\np(3).\nt(X) :- (p(X) -> true ; X = 0).\nn1(5) :- nd(f(5)).\nn2(6) :- nd(f(6)).\n",
+        "p(10).\nq(X) :- p(X), \\+ X = 10.\nq(99).\nt(X) :- q(X).\nn1(5) :- nd(f(5)).\nn2(6) :- nd(f(6)).\n"]
 BATTERY = [('p', 1), ('q', 1), ('t', 1), ('u', 1)]
 OPS = ['load', 'assert', 'retract', 'retractall', 'register', 'clear', 'atom', 'query', 'assert_other']
 
@@ -243,10 +243,10 @@ def make_body_a(info):
 def make_body_b(ngen, nsteps, info):
     codes = [_compile(s) for s in POOL]
     spec = [('same', 'bool', None), ('fa', 'bool', None), ('va', 'int', None)]
-    spec += [('g%d' % i, 'int', '0 <= g%d <= 3' % i) for i in range(ngen)]       # which goal each generator runs
+    spec += [('g%d' % i, 'int', '0 <= g%d <= 5' % i) for i in range(ngen)]       # which goal each generator runs
     spec += [('w%d' % i, 'int', '0 <= w%d <= %d' % (i, ngen - 1)) for i in range(nsteps)]
     ix = ch.index_of(spec)
-    GOALS = [('p', 1), ('t', 1), ('q', 1), ('u', 1)]
+    GOALS = [('p', 1), ('t', 1), ('q', 1), ('u', 1), ('n1', 1), ('n2', 1)]     # n1/n2 use the non-ground dynamic fact nd(f(_))
 
     def body(vals):
         ch.install_registry(False)
@@ -262,6 +262,7 @@ def make_body_b(ngen, nsteps, info):
             yp.register_function('u', pyu)
             if g('fa'):
                 yp.assert_fact(yp.atom('p'), [g('va')])
+            yp.assert_fact(yp.atom('nd'), [yp.functor('f', [yp.variable()])])
             return yp
         try:
             E0 = prepare(0)
@@ -271,7 +272,7 @@ def make_body_b(ngen, nsteps, info):
             for i in range(ngen):
                 gi = g('g%d' % i)
                 name = GOALS[0][0]
-                for j in range(4):
+                for j in range(len(GOALS)):
                     if gi == j:
                         name = GOALS[j][0]
                 yp = engines[i]
@@ -321,17 +322,20 @@ def units(tier, seed):
     us = []
     for op in range(len(OPS)):
         for sB in range(3):
-            us.append(dict(id='a.%s.B-script%d' % (OPS[op], sB), kind='a', fixed={'op': op, 'sB': sB}, ob='C04.a',
-                           timeout=300 if tier == 'quick' else 1200, weight=60,
-                           bounds='operation %s on A; B has script %d; all other state codes symbolic' % (OPS[op], sB)))
+            heavy = OPS[op] in ('load', 'query', 'retractall', 'clear') and sB == 2
+            for fxa in ([{'sA': a} for a in range(3)] if heavy else [{}]):
+                tag = ''.join('.A-script%d' % v for v in fxa.values())
+                us.append(dict(id='a.%s.B-script%d%s' % (OPS[op], sB, tag), kind='a', fixed=dict({'op': op, 'sB': sB}, **fxa), ob='C04.a',
+                               timeout=300 if tier == 'quick' else 1200, weight=60,
+                               bounds='operation %s on A; B has script %d; %r; all other state codes symbolic' % (OPS[op], sB, fxa)))
     ngen, nsteps = (2, 6) if tier == 'quick' else (3, 9)
-    for g0 in range(4):
-        for g1 in range(4):
-            if tier == 'quick' and g1 < g0:
+    for g0 in range(6):
+        for g1 in range(6):
+            if tier == 'quick' and (g1 < g0 or (g0 < 4 and g1 >= 4 and g0 != 0)):
                 continue
             us.append(dict(id='b.sched.g%d-g%d' % (g0, g1), kind='b', ngen=ngen, nsteps=nsteps, fixed={'g0': g0, 'g1': g1}, ob='C04.b',
                            timeout=300 if tier == 'quick' else 2400, weight=60,
-                           bounds='%d generators, schedule of %d steps, goals %d/%d of p t q u' % (ngen, nsteps, g0, g1)))
+                           bounds='%d generators, schedule of %d steps, goals %d/%d of p t q u n1 n2' % (ngen, nsteps, g0, g1)))
     return us
 
 
